@@ -40,6 +40,7 @@ type Violation struct {
 	Extra   map[string]any    `json:"extra,omitempty"`
 	Path    string            `json:"path"` // decision string
 	Where   string            `json:"where,omitempty"`
+	Reach   []string          `json:"reach,omitempty"`
 }
 
 type Config struct {
@@ -54,6 +55,9 @@ type Config struct {
 	MaxViolations   int
 	Trace           bool
 	Params          map[string]int64
+	Seed            int64
+	WitnessEvery    int
+	MaxWitnesses    int
 }
 
 // Explorer is shared by all workers of one harness run.
@@ -154,6 +158,7 @@ type Engine struct {
 	noIfConv bool
 	shared   map[*value]string // C20: addresses of objects tagged as shared
 	sharedW  []string
+	observed []observedVec
 }
 
 func newEngine(x *Explorer) (*Engine, error) {
@@ -179,6 +184,7 @@ func (e *Engine) resetPath(prefix []dec) {
 	e.panicOK = false
 	e.extra = map[string]any{}
 	e.notes = map[string]int{}
+	e.observed = nil
 	// keep the solver's definition table bounded
 	if e.sv.nDefs > 400000 {
 		e.sv.Restart()
@@ -477,6 +483,18 @@ func (e *Engine) model() (map[string]uint64, error) {
 	return e.sv.Values(vars)
 }
 
+// observe registers a vector of terms whose model values are exported with
+// every counterexample / witness (e.g. the honest ciphertext an attacker
+// string is relative to).
+func (e *Engine) observe(name string, vals []*Term) {
+	e.observed = append(e.observed, observedVec{name, vals})
+}
+
+type observedVec struct {
+	name string
+	vals []*Term
+}
+
 func (e *Engine) buildViolation(kind, msg string, m map[string]uint64) *Violation {
 	v := &Violation{Harness: e.x.Harness, Msg: msg, Kind: kind, Bytes: map[string]string{}, Ints: map[string]int64{}, Path: trailString(e.trail)}
 	v.Inputs = append(v.Inputs, e.inputs...)
@@ -491,6 +509,17 @@ func (e *Engine) buildViolation(kind, msg string, m map[string]uint64) *Violatio
 		default:
 			v.Ints[in.Name] = in.Val
 		}
+	}
+	for _, o := range e.observed {
+		vals, err := e.sv.ValuesT(o.vals)
+		if err != nil {
+			continue
+		}
+		var sb strings.Builder
+		for _, x := range vals {
+			fmt.Fprintf(&sb, "%02x", x&0xff)
+		}
+		v.Bytes[o.name] = sb.String()
 	}
 	if len(e.extra) > 0 {
 		v.Extra = map[string]any{}
